@@ -90,6 +90,8 @@ CreateTableReasons(B, d, p) ==
           \cup (IF Len(p.elems) # nc + ni + nf + nk THEN {"element_count_differs"}
                 ELSE UNION {ColumnReasons(B, d.cols[i], p.elems[i]) : i \in 1..nc}
                      \cup (IF \A i \in 1..ni : p.elems[nc + i].kind \in {"primary", "unique", "index"} /\ StripRest(p.elems[nc + i]) = IndexElem(B, ix[i]) /\ IndexTypeOk(B, ix[i], p.elems[nc + i]) THEN {} ELSE {"table_indexes_differ"})
+                     \* a table constraint has no predicate in either dialect (only CREATE INDEX takes WHERE)
+                     \cup (IF \E i \in 1..ni : "rest" \in DOMAIN p.elems[nc + i] /\ \E j \in DOMAIN p.elems[nc + i].rest : p.elems[nc + i].rest[j] = "WHERE" THEN {"table_constraint_with_predicate"} ELSE {})
                      \cup (IF \A i \in 1..nf : p.elems[nc + ni + i] = FkElem(fk[i]) THEN {} ELSE {"foreign_keys_differ"})
                      \cup (IF \A i \in 1..nk : p.elems[nc + ni + nf + i] = [kind |-> "check", e |-> Canon(B, ck[i])] THEN {} ELSE {"checks_differ"}))
 
